@@ -3,10 +3,16 @@
      G:<hexgroup>                 parser.group(name)
      D:<g>:<k>:<hexname>          declaration; <g> = * (on the parser) or hex group name; <k> = o | m | t
      S:<g>:<k>:<hexname>:<f>[:<hexarg>]   declaration followed by a setter; <f> = s(hort_name) e(nv) m(etavar) d(efault)
+     HD:<g>:<k>:<hexname>[:<f>[:<hexarg>]]  the same through the group& handed out earlier (held handle; * = default group)
+     HS:<g>:<k>:<hexname>:<f>[:<hexarg>]    setter through the option& handed out earlier; NOH when no such handle exists
      MC | MA | MS                 move the parser object (construct / assign / via a stack object); P  parse of []
    observation: one word per operation, then "; F=<parse>", the probes, the display order and the settings table. *)
 let kind_of = function "o" -> KOpt | "m" -> KMulti | "t" -> KToggle | _ -> failwith "kind"
 let gsel_of s = if s = "*" then GDirect else GNamed (str_of_hex s)
+let key_of s = if s = "*" then default_key else str_of_hex s
+let setter_of f a = match f, a with
+  | "s", [a] -> SShort (str_of_hex a) | "e", [a] -> SEnv (str_of_hex a) | "m", [a] -> SMetavar (str_of_hex a)
+  | "d", [] -> SDefault | _ -> failwith "setter"
 let op_of w = match String.split_on_char ':' w with
   | ["G"; g] -> OGroup (str_of_hex g)
   | ["D"; g; k; n] -> ODecl (gsel_of g, kind_of k, str_of_hex n)
@@ -14,15 +20,18 @@ let op_of w = match String.split_on_char ':' w with
   | ["S"; g; k; n; "e"; a] -> OSet (gsel_of g, kind_of k, str_of_hex n, SEnv (str_of_hex a))
   | ["S"; g; k; n; "m"; a] -> OSet (gsel_of g, kind_of k, str_of_hex n, SMetavar (str_of_hex a))
   | ["S"; g; k; n; "d"] -> OSet (gsel_of g, kind_of k, str_of_hex n, SDefault)
+  | ["HD"; g; k; n] -> OHDecl (key_of g, kind_of k, str_of_hex n, None)
+  | "HD" :: g :: k :: n :: f :: a -> OHDecl (key_of g, kind_of k, str_of_hex n, Some (setter_of f a))
+  | "HS" :: g :: k :: n :: f :: a -> OHSet (((key_of g, kind_of k), str_of_hex n), setter_of f a)
   | ["MC"] | ["MA"] | ["MS"] -> OMove
   | ["P"] -> OParse
   | _ -> failwith "op"
 let dedup l = List.rev (List.fold_left (fun acc x -> if List.mem x acc then acc else x :: acc) [] l)
 (* the names and the one-character letters mentioned anywhere in the case, in order of first mention *)
 let names_of ws = dedup (List.concat_map (fun w -> match String.split_on_char ':' w with
-  | "D" :: _ :: _ :: n :: _ | "S" :: _ :: _ :: n :: _ -> [n] | _ -> []) ws)
+  | ("D" | "S" | "HD" | "HS") :: _ :: _ :: n :: _ -> [n] | _ -> []) ws)
 let letters_of ws = dedup (List.concat_map (fun w -> match String.split_on_char ':' w with
-  | ["S"; _; _; _; "s"; a] when String.length a = 2 -> [a] | _ -> []) ws)
+  | [("S" | "HD" | "HS"); _; _; _; "s"; a] when String.length a = 2 -> [a] | _ -> []) ws)
 let pres = function POk -> "OK" | PUser -> "USER" | PDev -> "DEV"
 let render (ws : string list) ((((outs, fin), probes), order), table) : string =
   let ids = Hashtbl.create 16 and gids = Hashtbl.create 8 in
@@ -38,6 +47,7 @@ let render (ws : string list) ((((outs, fin), probes), order), table) : string =
     | RDev -> "DEV "
     | RDevSet i -> Printf.sprintf "DEVS%d " (id_of i)
     | RMoved -> "MOVED "
+    | RNoHandle -> "NOH "
     | RParse r -> "P=" ^ pres r ^ " ")) outs;
   Buffer.add_string b ("; F=" ^ pres fin);
   let idset l = if l = [] then "." else String.concat "+" (List.map string_of_int (List.sort compare (List.map id_of l))) in
